@@ -290,24 +290,46 @@ PROPS["C17"] = dict(
 )
 
 PROPS["C11"] = dict(
-    modules=["Hpbf.Props.C11"],
-    theorems=t("Hpbf.C11", "reach_iff_wr check_facts check_branch_target check_pc_le check_no_bad check_runCfg_not_bad "
+    modules=["Hpbf.Props.C11", "Hpbf.Props.C11Alloc", "Hpbf.Props.C11Full", "Hpbf.Props.Chain"],
+    theorems=t("Hpbf.C02", "translateE_check translateE_localOk translateE_localFacts local_localOk_of_facts") +
+             t("Hpbf.C02.Local", "analyze_covers emit_allGood allGood_dseLike allGood_allocateTemps allGood_parameterReordering "
+               "allGood_zeroingMoveDetection allGood_strip targetsOk_strip latePasses_good") +
+             t("Hpbf.C02", "allocateTemps_initOk allocateTemps_liveOk allocateTemps_initOk_of_emit allocateTemps_liveOk_of_emit "
+               "allocateTemps_contract_of_emit latePasses_initFacts latePasses_liveFacts translateE_initOk_liveOk "
+               "translateE_no_uninit_read translateE_temps_lt alloc_flow_needed_for_liveOk") +
+             t("Hpbf.C02.Alloc", "alloc_initOk_of_facts alloc_liveOk_of_facts alloc_initSolve_complete alloc_liveSolve_complete "
+               "liveMask_testBit alloc_step_mask held_zero held_uses held_succ held_jump held_mask alloc_initFacts alloc_liveFacts "
+               "stripNoops_rel initFacts_strip liveFacts_strip") +
+             t("Hpbf.Chain", "emit_targetsOk emit_brnz_target emit_brz_target translate_shape") +
+             t("Hpbf.C11", "reach_iff_wr check_facts check_branch_target check_pc_le check_no_bad check_runCfg_not_bad "
                "check_run_not_bad check_window check_window_zero step_frame_any step_frame_next step_frame_exit step_ptr "
                "step_reads_touched step_touched_only check_step_window check_temps_lt check_init check_init_of_initOk "
                "init_inv_of_initOk check_init_independent check_run_independent check_live_step live_step_of_liveOk "
                "check_live_run check_live_dead live_dead_of_liveOk"),
     streams=[dict(suite="bcwf", quick=800, thorough=40000, judge="wf"),
              dict(suite="bcrun", quick=60, thorough=3000, judge="bcrun")],
-    scope="The contract checker BcWf.check is proved SOUND against the bytecode semantics for every program, "
+    scope="C11 IS PROVED IN FULL FOR EVERY OUTPUT OF translate: translateE_check — translateE prog numRegs fuse = .ok p -> "
+          "BcWf.check p numRegs = true, for every IR block (parser or optimizer output or any other), every register count, "
+          "both fuse modes, no hypothesis on the block: branches of the final program land inside it (targetsOk_strip), "
+          "every tape operand lies in the declared window and the window contains 0 (analyze_covers, emit_allGood and its "
+          "preservation through dead-store elimination, allocation and the late passes), destinations are cells or "
+          "temporaries, one live bitmap per instruction, and (Props/C11Alloc): no temporary is "
+          "read before it is written on any path and every register temporary needed after a non-branch instruction is in "
+          "its live bitmap — in the checker's own boolean form (translateE_initOk_liveOk: initOk p (initSolve p) = true and "
+          "liveOk p n (liveSolve p) = true, so check p n = localOk p), proved through temporary allocation (held-set "
+          "invariant, liveMask bit lemma) and through the late passes; every temporary index is below the declared count "
+          "(translateE_temps_lt); branches of the emitted code land inside the program (emit_targetsOk). "
+          "The contract checker BcWf.check is proved SOUND against the bytecode semantics for every program, "
           "environment, fuel and mode: a checked program never reaches a malformed state (branch outside the program, "
           "unimplemented operand form), touches the tape only inside its declared window, uses only declared "
           "temporaries, never reads a temporary before writing it on ANY path (and its result is independent of the "
           "initial temporaries), and every register temporary not declared live across a non-branch instruction is "
           "dead after it (noninterference). The checker is then run (in Lean) on the exact bytecode the real generator "
           "hands to the interpreter (2 registers, fusion) and to the JIT (11 registers, no fusion).",
-    not_proved="that translate ALWAYS produces bytecode accepted by the checker (for all programs) is not a theorem: it "
-               "is established per generated program by running the verified checker; a rejected bytecode is a violation "
-               "with the source program as replay",
+    not_proved="nothing of the property's statement on the model; what remains outside the proof is the tie: that the Rust "
+               "generator equals the Lean port (exact bytecode equality on every sampled program, C02 bcgen/irgen streams), "
+               "and success of translate itself (emission proved total; allocate_temps totality in progress). The verified "
+               "checker still runs on the real bytecode of every sampled program as an independent cross-check",
     rule="for generated programs x 4 widths x levels 0-3 x {(2 regs, fuse), (11 regs, no fuse)}: the bytecode produced "
          "by bc::CodeGen::translate is sent to the Lean driver, which runs BcWf.check (reply ok / local / init / live); "
          "the bytecode semantics used in the soundness proof is itself tied to the threaded interpreter (bcrun stream). "
@@ -355,8 +377,9 @@ def c07_limited(run, harnesses):
 
 
 PROPS["C05"] = dict(
-    modules=["Hpbf.Props.C05"],
-    theorems=t("Hpbf.C05", "normTape_denotes sameCfg_sound step_congr repeat_diverges cert_diverges_sound "
+    modules=["Hpbf.Props.C05", "Hpbf.Props.Chain"],
+    theorems=t("Hpbf.Chain", "bc_never_returns bc_runs_forever bc_runs_forever_or_bad bc_limited_interrupted bc_terminates bc_divergent_output jit_level0_divergent") +
+             t("Hpbf.C05", "normTape_denotes sameCfg_sound step_congr repeat_diverges cert_diverges_sound "
                "cert_diverges_witness cert_halts_sound cert_consistent inplace_never_returns inplace_runs_forever "
                "inplace_limited_interrupted inplace_terminates inplace_divergent_output inplace_output_agrees "
                "ir_never_returns ir_runs_forever ir_limited_interrupted ir_terminates ir_divergent_output "
@@ -364,7 +387,7 @@ PROPS["C05"] = dict(
     streams=[],
     extra=[c05_divergence],
     corpus=["diverge"], corpus_judge="div",
-    scope="Divergence certificates are sound (a canonical run that revisits a configuration never terminates; "
+    scope="Bytecode machine at level 0 (Props/Chain, from the composed refinement): a canonically divergent program never returns (unlimited and limited), a canonically terminating one terminates, and what a divergent program prints is a canonical prefix (bc_never_returns, bc_terminates, bc_divergent_output). Divergence certificates are sound (a canonical run that revisits a configuration never terminates; "
           "cert_diverges_sound, cert_halts_sound). For the in-place interpreter (all programs) and the IR "
           "interpreter at level 0 (all programs, w >= 1): canonical divergence implies the back end never returns "
           "(finished/stopped impossible for every fuel and budget), limited mode reports interrupted, everything "
@@ -386,8 +409,9 @@ PROPS["C05"] = dict(
 )
 
 PROPS["C07"] = dict(
-    modules=["Hpbf.Props.C07", "Hpbf.Props.C04"],
-    theorems=t("Hpbf.C07", "ir_limited_done ir_limited_stopped ir_limited_prefix ir_limited_is_prefix ir_limited_enough "
+    modules=["Hpbf.Props.C07", "Hpbf.Props.C04", "Hpbf.Props.Chain"],
+    theorems=t("Hpbf.Chain", "bc_limited_finished bc_limited_prefix bc_limited_is_prefix bc_limited_enough jit_level0_limited jit_level0_limited_enough") +
+             t("Hpbf.C07", "ir_limited_done ir_limited_stopped ir_limited_prefix ir_limited_is_prefix ir_limited_enough "
                "ir_limited_enough_stopped ir_limited_terminates ir_divergent_never_finished bc_limited_done "
                "bc_limited_stopped bc_limited_bad bc_limited_prefix bc_limited_is_prefix bc_limited_enough "
                "bc_limited_enough_stopped bc_limited_enough_bad bc_limited_terminates_scanfree bc_limited_terminates "
@@ -397,7 +421,7 @@ PROPS["C07"] = dict(
              dict(suite="bcrun", quick=80, thorough=4000, judge="bcrun")],
     extra=[c07_limited],
     corpus=["programs"], corpus_judge="program",
-    scope="For the in-place interpreter (vs canonical semantics, all programs), the IR machine and the bytecode machine "
+    scope="Bytecode machine and JIT at level 0 against the CANONICAL semantics (Props/Chain): a limited run that reports finished has the complete canonical events, any limited run's events are a canonical prefix, enough budget finishes (bc_limited_finished, bc_limited_is_prefix, bc_limited_enough; jit_level0_limited for the machine code). For the in-place interpreter (vs canonical semantics, all programs), the IR machine and the bytecode machine "
           "(limited vs unlimited run of the SAME program, all programs incl. malformed bytecode): a limited run that "
           "reports finished/stopped ends in the same state as the unlimited run; otherwise its events are a prefix; a "
           "budget >= the unlimited step count suffices to finish; limited runs terminate within an explicit fuel bound "
@@ -415,8 +439,9 @@ PROPS["C07"] = dict(
 )
 
 PROPS["C08"] = dict(
-    modules=["Hpbf.Props.C08"],
-    theorems=t("Hpbf.C08", "outByte_low8 eof_reads_zero eof_sticky eof_reply_reads_zero input_error_stops "
+    modules=["Hpbf.Props.C08", "Hpbf.Props.Chain"],
+    theorems=t("Hpbf.Chain", "bc_stops_like_canonical bc_limited_stops_like_canonical bc_stops_only_like_canonical bc_refused_byte") +
+             t("Hpbf.C08", "outByte_low8 eof_reads_zero eof_sticky eof_reply_reads_zero input_error_stops "
                "input_absent_stops output_refused_stops output_absent_sink_ok input_fails_iff output_fails_iff "
                "bf_stop_final bf_stops_only_at_io inplace_stop_final inplace_stops_only_at_io ir_stop_final "
                "ir_stops_only_at_io bc_stop_final bc_stops_only_at_io refusal_cases refusal_is_canonical_prefix "
@@ -426,7 +451,7 @@ PROPS["C08"] = dict(
     streams=[dict(suite="faults", quick=150, thorough=6000, judge="program"),
              dict(suite="e2e", quick=800, thorough=20000, judge="program")],
     corpus=["programs"], corpus_judge="program",
-    scope="Environment semantics (end of input reads 0 and is sticky; read error / absent source / refused byte stop "
+    scope="Bytecode machine at level 0 against the CANONICAL semantics (Props/Chain): a failing I/O operation stops the bytecode run with exactly the canonical events, in either mode, and it stops only then (bc_stops_like_canonical, bc_stops_only_like_canonical, bc_refused_byte). Environment semantics (end of input reads 0 and is sticky; read error / absent source / refused byte stop "
           "with the tape untouched; absent sink accepts silently) for the shared State operations; for each machine "
           "(canonical, in-place, IR, bytecode) a stop ends the run (no later event) and happens only at a failing I/O "
           "instruction; the events before a refused byte, and the refused byte itself, are exactly those of the "
@@ -554,18 +579,26 @@ PROPS["C10"] = dict(
 )
 
 PROPS["C13"] = dict(
-    modules=["Hpbf.Props.C11", "Hpbf.Props.C12"],
-    theorems=t("Hpbf.C11", "check_no_bad check_run_not_bad check_temps_lt") + t("Hpbf.C12", "parse_invariant parseStep_unreachable_arm parse_unreachable_arm parse_ok_iff_balanced"),
+    modules=["Hpbf.Props.C11", "Hpbf.Props.C12", "Hpbf.Props.C02EmitTotal", "Hpbf.Props.Chain", "Hpbf.Props.C01Dse"],
+    theorems=t("Hpbf.C02", "emit_total emitOnly_total emit_total_full_holds emit_total_run emit_total_inv") +
+             t("Hpbf.Chain", "translateE_phases translateE_ok_of_alloc") + t("Hpbf.C01Dse", "eliminate_total eliminate_none_iff") +
+             t("Hpbf.C11", "check_no_bad check_run_not_bad check_temps_lt") + t("Hpbf.C12", "parse_invariant parseStep_unreachable_arm parse_unreachable_arm parse_ok_iff_balanced"),
     streams=[dict(suite="c13", quick=150, thorough=8000, judge="const"),
              dict(suite="bcgen", quick=40, thorough=3000, judge="tie"),
              dict(suite="jitgen", quick=10, thorough=600, judge="tie")],
     extra=[c13_cross_process],
-    scope="Proved: the parser model is total and its two defensive arms are unreachable (C12); every bytecode program "
+    scope="Proved: the parser model is total and its two defensive arms are unreachable (C12); the EMISSION phase of "
+          "translate never reaches one of its panic sites, for every IR block, width and fuse mode (emit_total: range "
+          "table indices, the outer_accessed loop's fuel, sub-analysis indices — each site discharged), and once emission "
+          "succeeds the dead-store and late passes succeed, so only allocate_temps can still fail (translateE_ok_of_alloc); "
+          "the optimizer's dead store elimination fails exactly on an analysis of the wrong shape (eliminate_none_iff); "
+          "every bytecode program "
           "accepted by the contract checker only contains operand forms the threaded interpreter implements (no "
           "unimplemented! at run time, C11 check_no_bad). Tied exactly: bytecode generation and JIT code generation are "
           "pure Lean functions of (IR, registers, fusion) resp. (bytecode, mode) whose output equals the Rust's on every "
           "sampled input — including the forms for which the Rust panics with unimplemented!, which the model predicts.",
-    not_proved="absence of panics, independence of hash seeds and of earlier compilations, and reusability are properties of "
+    not_proved="absence of panics in the optimizer's rebuild round, in allocate_temps (a hand-built state satisfying its "
+               "precondition panics; none reachable from emission was found) and in the JIT, independence of hash seeds and of earlier compilations, and reusability are properties of "
                "the running Rust code: they are observed (catch_unwind in a debug build, double compilation, two processes, "
                "triple execution), not proved; 'no super-polynomial blow-up' is measured on doubling families (thorough tier)",
     rule="c13 stream: generated programs incl. nesting depth 50-400 and divergent ones x 4 widths x levels 0-3: create every "
@@ -577,8 +610,10 @@ PROPS["C13"] = dict(
 )
 
 PROPS["C02"] = dict(
-    modules=["Hpbf.Props.C02", "Hpbf.Props.C02Emit", "Hpbf.Props.C02Dse", "Hpbf.Props.C02Alloc", "Hpbf.Props.C11", "Hpbf.Props.C07"],
-    theorems=t("Hpbf.C02", "allocateTemps_preserves allocateTemps_latePre") +
+    modules=["Hpbf.Props.C02", "Hpbf.Props.C02Emit", "Hpbf.Props.C02Dse", "Hpbf.Props.C02Alloc", "Hpbf.Props.C02EmitTotal", "Hpbf.Props.C11", "Hpbf.Props.C07", "Hpbf.Props.Chain"],
+    theorems=t("Hpbf.C02", "emit_total emitOnly_total emit_forward' emit_backward' emit_prefix'") +
+             t("Hpbf.Chain", "emit_targetsOk emit_brnz_target emit_brz_target emit_live0 translateE_phases translateE_ok_of_alloc passes_behEqIO translate_behEqIO translate_shape translate_forward translate_backward translate_prefix translate_refines translate_refines_noOnce translate_never_interrupted translate_not_bad_of_terminates parse_noOnce parse_onceOk bytecode_level0_forward bytecode_level0_backward bytecode_level0_prefix bytecode_level0 bytecode_level0_debug bytecode_level0_proper") +
+             t("Hpbf.C02", "allocateTemps_preserves allocateTemps_latePre") +
              t("Hpbf.C02.Alloc", "sim_step trace_of_allocateTemps trace_inv repl_stable allocPreB_sound alloc_flow_necessary "
                "alloc_ptr_necessary alloc_writes_necessary alloc_fuse_first_use_necessary alloc_fuse_nojump_necessary "
                "alloc_firstLt_necessary alloc_shrunk_extension_panics allocPre_of_dseLike deadStoreElim_dseLike") +
@@ -603,7 +638,7 @@ PROPS["C02"] = dict(
              dict(suite="bcrun", quick=60, thorough=3000, judge="bcrun"),
              dict(suite="e2e", quick=1200, thorough=40000, thorough_seeds=3, judge="program")],
     corpus=["programs"], corpus_judge="program",
-    scope="Proved on the exact Lean port of the generator and the bytecode machine: (1) the FIRST phase of translate "
+    scope="END TO END AT LEVEL 0 (Props/Chain): for EVERY source text, width >= 1 and environment, if translate succeeds on the parsed program then the bytecode machine (both dispatch profiles) has exactly the canonical events: canonical terminates/stops => bytecode does with the same trace, conversely, and unfinished runs are prefixes of each other (bytecode_level0, bytecode_level0_debug); for ANY IR block (i.e. also optimizer output) translate refines the IR semantics under OnceOk (translate_refines) — the four phase theorems composed, TargetsOk of emitted code proved (emit_targetsOk), the .ok chain shown to fail only at the panic sites of emission/allocation (translateE_ok_of_alloc). Proved on the exact Lean port of the generator and the bytecode machine: (1) the FIRST phase of translate "
           "(analysis + value-numbering emission of every IR instruction, loops, ifs, fused scans, both fuse modes) "
           "refines the IR semantics for EVERY IR block at every width: emit_forward / emit_backward (same events, tape, "
           "pointer, environment for finished and I/O-stopped runs) and emit_prefix (unfinished runs are prefixes of each "
@@ -627,11 +662,8 @@ PROPS["C02"] = dict(
           "instruction) and release (tested at entry) dispatch loops compute the same result (runDebug_eq_run); "
           "contract-checked bytecode never reaches an unimplemented form and is independent of uninitialised/dead "
           "temporaries (C11); limited mode is a faithful prefix (C07).",
-    not_proved="the composition of the four phase theorems into one statement (each phase's precondition is proved "
-               "for the previous phase's output except TargetsOk of the emitted code, which the per-run checker establishes), "
-               "panic-freedom of allocate_temps (a hand-built state satisfying AllocPre makes it panic: "
-               "alloc_shrunk_extension_panics; never wrong code), totality of the emission (that the generator's panic sites are unreachable: every theorem takes "
-               "`emitOnly blk fuse = .ok p` as hypothesis), and that the optimizer only marks loops `once` when OnceOk holds, "
+    not_proved="panic-freedom of allocate_temps (a hand-built state satisfying AllocPre makes it panic: "
+               "alloc_shrunk_extension_panics; never wrong code), totality of allocate_temps (emission is proved total: emit_total), and that the optimizer only marks loops `once` when OnceOk holds, "
                "are not theorems; they are established per program: translate's "
                "output equals the pure Lean function BcGen.translate EXACTLY (also on random IR not reachable from the parser), "
                "random loop-free IR executes identically on IR interpreter, bytecode interpreter and JIT and as the Lean IR "
@@ -648,8 +680,9 @@ PROPS["C02"] = dict(
 
 
 PROPS["C03"] = dict(
-    modules=["Hpbf.Props.C03", "Hpbf.Props.C03Flow", "Hpbf.Props.C11"],
-    theorems=t("Hpbf.C03", "layout_decompose layout_locs layout_instr_at layout_epilogue_at layout_jcc_target layout_term_target "
+    modules=["Hpbf.Props.C03", "Hpbf.Props.C03Flow", "Hpbf.Props.C11", "Hpbf.Props.Chain"],
+    theorems=t("Hpbf.Chain", "x86_ret_unique jit_of_bc jit_level0_forward jit_level0_unique jit_level0_prefix jit_level0_divergent jit_level0_limited jit_level0_limited_enough") +
+             t("Hpbf.C03", "layout_decompose layout_locs layout_instr_at layout_epilogue_at layout_jcc_target layout_term_target "
                "layout_epilogue layout_skip8 layout_saved_regs layout_item_size layout_items_size prog_fetch_fast prog_fetch "
                "flow_plain_block flow_arith_slots flow_brz_brnz flow_limit_interrupted flow_mov flow_mov_safe flow_arith_instr "
                "flow_input flow_output flow_saved_regs flow_prologue flow_epilogue flow_init_state prog_simulation "
@@ -664,7 +697,7 @@ PROPS["C03"] = dict(
              dict(suite="irgen", quick=1500, thorough=80000, judge="tie"),
              dict(suite="e2e", quick=1500, thorough=50000, thorough_seeds=3, judge="program")],
     corpus=["programs", "jitforms"], corpus_judge="program",
-    scope="WHOLE-PROGRAM simulation, proved on the exact Lean port of the code generator (JitGen.compileX86) and an "
+    scope="END TO END AT LEVEL 0 (Props/Chain): source text -> parse -> translate -> compileX86 -> program-level x86 machine: under the bundled hypotheses of prog_run (JitHyps), a canonically terminating program makes the machine code return 1 (0 after an I/O stop) with exactly the canonical events, every return is that one (jit_level0_forward, jit_level0_unique), running code only ever has emitted a canonical prefix (jit_level0_prefix), and in limited mode the function always returns, with rax = 1 only for a complete canonical run (jit_level0_limited). WHOLE-PROGRAM simulation, proved on the exact Lean port of the code generator (JitGen.compileX86) and an "
           "executable program-level x86 machine (X86Prog: byte-addressed code, flags, push/pop, rel8/rel32 jumps, the three "
           "runtime calls as atomic transitions that clobber every caller-saved register): prog_run — for every bytecode "
           "program that passes the verified contract checker (BcWf.check p 11) and compiles, from the entry state the "
